@@ -27,6 +27,7 @@ ASSUMPTIONS = ["samples of the last interval's right transition and the final sa
 ANCHORS = {"funfit.py": [(36, 38), (72, 74), (109, 111), (150, 154), (192, 196)],
            "rfa.py": [(270, 280), (428, 460), (481, 500), (648, 669), (817, 851)]}
 FORMS_HARNESSES = "all"
+FORMS_SKIP_QUICK = ("long-series",)   # long inputs under every form: thorough tier only (cost)
 EXPLANATION = "agreement with an independent reference model on every element of a bounded lattice"
 
 
